@@ -152,10 +152,14 @@ CLAIMS = {
              "deferral, a garbled, out-of-range or unused-slot report or a lost spawner; the failure is recorded in the "
              "bounce before the mark; a recipient list is unlinked only at end-of-list with nothing pending; info is removed "
              "only when both lists and todo are known absent and the bounce was queued; every failure path re-inserts the "
-             "message into a retry queue (pqadd, job_close, messdone, pass_dochan), never forgets it.",
+             "message into a retry queue (pqadd, job_close, messdone, pass_dochan), never forgets it. todo_do (loop contract, any "
+             "number and kind of records, every call may fail): every recipient record read is written to exactly the channel "
+             "its classification says before the next is read; the todo entry is removed only after the envelope was read to "
+             "EOF without error and info and every recipient list were flushed, fsynced and closed; the message is scheduled "
+             "only after that removal, on exactly the channels that got a list (or for completion).",
         note="NOT decided: 'stays in the queue until every recipient is delivered or bounced' as a statement about whole "
              "histories with restarts, and any liveness. Slot tables are bounded to 3-4 slots / 4-8 jobs (labelled bounded); "
-             "todo_do's record conservation is not yet under contract.",
+             "The byte content of the rewritten records is rewrite()'s contract (C10).",
         design_ref="DESIGN.md section 5 C03, section 10"),
     "C04": dict(
         text="NARROW claim - per function. Proof (CBMC): pass_dochan starts a delivery only for a record still marked T, hands "
@@ -198,7 +202,8 @@ CLAIMS = {
              "every key <= 6 bytes (bounded).",
         note="What the control files list is configuration (constmap is a recording oracle in rewrite); the percent-hack "
              "round itself (cut at @, last % becomes @) is checked through the loop invariant only at the level 'the probe "
-             "follows an @'; senderadd (VERP expansion) and todo_do's per-recipient conservation are not covered.",
+             "follows an @'; todo_do: recipients keep their order and none is dropped, duplicated or merged (each record "
+             "goes to exactly one channel list before the next is read); senderadd (VERP expansion) is not covered.",
         design_ref="DESIGN.md section 5 C10"),
     "C13": dict(
         text="PARTIAL claim. Proof (CBMC) on the unmodified qmail-local.c: qmesearch() (loop contract, ghost index; extensions "
